@@ -222,6 +222,52 @@ func (s *Solver) solve(o *Obligation) *SolveResult {
 			}
 		}
 	}
+	if res.Status == "" && !o.Cover {
+		// second stage: quantifier instantiation is heuristic; try other
+		// configurations before giving up (only `unsat` is ever accepted)
+		type alt struct {
+			name string
+			argv []string
+		}
+		alts := []alt{
+			{"z3-new/seed1", []string{"z3-new", fmt.Sprintf("-T:%d", s.TimeoutS), "smt.random_seed=1", f1}},
+			{"z3/seed7", []string{"z3", fmt.Sprintf("-T:%d", s.TimeoutS), "smt.random_seed=7", f1}},
+			{"z3-new/nombqi", []string{"z3-new", fmt.Sprintf("-T:%d", s.TimeoutS), "smt.mbqi=false", "smt.random_seed=3", f1}},
+			{"z3/eager", []string{"z3", fmt.Sprintf("-T:%d", s.TimeoutS), "smt.qi.eager_threshold=100", f1}},
+			{"cvc5/enum", []string{"cvc5", fmt.Sprintf("--tlimit=%d", s.TimeoutS*1000), "--enum-inst", "--lang=smt2", f2}},
+		}
+		aouts := make(chan out, len(alts))
+		actx, acancel := context.WithCancel(context.Background())
+		for _, a := range alts {
+			go func(a alt) {
+				st0 := time.Now()
+				cmd := exec.CommandContext(actx, a.argv[0], a.argv[1:]...)
+				var buf bytes.Buffer
+				cmd.Stdout = &buf
+				cmd.Stderr = &buf
+				_ = cmd.Run()
+				first := strings.TrimSpace(strings.SplitN(buf.String(), "\n", 2)[0])
+				stt := "unknown"
+				if first == "unsat" || first == "sat" {
+					stt = first
+				}
+				aouts <- out{a.name, stt, buf.String(), time.Since(st0).Seconds()}
+			}(a)
+		}
+		for range alts {
+			r := <-aouts
+			res.All[r.name] = r.status
+			if r.status == "unsat" && res.Status == "" {
+				res.Status, res.Solver, res.Seconds = "unsat", r.name, r.secs
+				acancel()
+			}
+			if r.status == "sat" && res.Status == "" {
+				res.Status, res.Solver, res.Seconds, res.Model = "sat", r.name, r.secs, r.text
+				acancel()
+			}
+		}
+		acancel()
+	}
 	if res.Status == "" {
 		res.Status = "unknown"
 		for _, st := range res.All {
